@@ -9,6 +9,8 @@ from . import mergerules as mr
 from . import pathrules as pr
 from .tagtable import check_flag_tags
 
+from .common import Guard  # noqa: E402
+
 PROP = 'C04'
 DECIDED = [
     'R1: path-base typing of every pruning / premerge lookup in the merge functions (peer lookups need a relative path, root lookups an absolute one); the removed-set and the new-path walk share one base.',
@@ -82,16 +84,18 @@ def r3b(repo, run):
 
 
 def check(repo, run, tier):
-    r3b(repo, run)
-    pr.typed_lookups(repo, run, 'C04.R1')
-    pr.removed_set_bases(repo, run, 'C04.R1')
-    mr.delete_resolution(repo, run, 'C04.R2')
-    mr.propagation_table(repo, run, 'C04.R2', 'delete')
-    mr.strictness(repo, run, 'C04.R3')
-    mr.removal_guards(repo, run, 'C04.R4')
-    r5(repo, run)
-    check_flag_tags(repo, run, 'C04.R6', tags={'!del', '!merge'})
-    mr.promotion_table(repo, run, 'C04.R7')
+    g = Guard()
+    g(r3b, repo, run)
+    g(pr.typed_lookups, repo, run, 'C04.R1')
+    g(pr.removed_set_bases, repo, run, 'C04.R1')
+    g(mr.delete_resolution, repo, run, 'C04.R2')
+    g(mr.propagation_table, repo, run, 'C04.R2', 'delete')
+    g(mr.strictness, repo, run, 'C04.R3')
+    g(mr.removal_guards, repo, run, 'C04.R4')
+    g(r5, repo, run)
+    g(check_flag_tags, repo, run, 'C04.R6', tags={'!del', '!merge'})
+    g(mr.promotion_table, repo, run, 'C04.R7')
+    g.done()
 
 
 def mutants(repo):
